@@ -291,7 +291,7 @@ func evalTextModels(c Case, trace bool) (verdict, *[2]*textModel) {
 		n := len(m.units)
 		from := s.A % (n + 1)
 		to := from + s.B%(n-from+1)
-		if excluding("SURR-SPLIT") {
+		if excluding("F35") {
 			// a boundary between the halves of a surrogate pair is moved outwards
 			// (see SPEC: splitting a pair is lossy in the Go SDK)
 			moved := false
@@ -304,7 +304,7 @@ func evalTextModels(c Case, trace bool) (verdict, *[2]*textModel) {
 				moved = true
 			}
 			if moved {
-				w.count("excluded:SURR-SPLIT")
+				w.count("excluded:F35")
 			}
 		} else if m.insidePair(from) || m.insidePair(to) {
 			w.count("splits_surrogate_pair")
